@@ -154,6 +154,7 @@ class PipeHarness(explore.Harness):
             kw["save"] = pc.save
         s = vsched.S()
         me = s.me()
+        it = None
         try:
             it = st.get_iter(RUN, target, **kw)
             rows = []
@@ -184,6 +185,13 @@ class PipeHarness(explore.Harness):
                 except BaseException as e:  # noqa
                     self.obs["closed_exc"] = e
         except vsched.Abort:
+            # torn down by the explorer (deadlock / quiescence / cut): finish the generator now so
+            # that it is not closed later by the garbage collector outside any scheduler
+            try:
+                if it is not None:
+                    it.close()
+            except BaseException:  # noqa
+                pass
             raise
         except BaseException as e:  # noqa
             self.obs["exc"] = e
@@ -200,3 +208,36 @@ class PipeHarness(explore.Harness):
             self.mailboxes = dict(getattr(proc, "mailboxes", {}))
         except Exception:
             self.mailboxes = {}
+
+
+# ---------------------------------------------------------------- monitors (observation only)
+LAST_PROC = {"p": None}
+GATE_VIOLATIONS = []
+_orig_tmp_init = strax.ThreadedMailboxProcessor.__init__
+_orig_can_fetch = strax.Mailbox._can_fetch
+
+
+def _tmp_init(self, *a, **k):
+    _orig_tmp_init(self, *a, **k)
+    LAST_PROC["p"] = self
+
+
+def _can_fetch(self):
+    """lazy fetch gate monitor: whenever the gate opens for the SENDER (its decision to advance the
+    source), some driving subscriber must be waiting for a message number that is not in the mailbox"""
+    import sys
+
+    r = _orig_can_fetch(self)
+    if r and not self.killed:
+        caller = sys._getframe(1).f_code.co_name
+        if caller in ("_send_from", "divide_outputs", "wait_for"):
+            present = {n for n, _ in self._mailbox}
+            strict = any(cd and w is not None and w not in present for cd, w in zip(self._subscriber_can_drive, self._subscriber_waiting_for))
+            if not strict:
+                GATE_VIOLATIONS.append(f"{self.name}: fetch gate opened with waiting_for={self._subscriber_waiting_for} can_drive={self._subscriber_can_drive} present={sorted(present)}")
+    return r
+
+
+def install_monitors():
+    strax.ThreadedMailboxProcessor.__init__ = _tmp_init
+    strax.Mailbox._can_fetch = _can_fetch
